@@ -136,11 +136,7 @@ def run(repo, rep, tier):
                 rep.check('triangle', '%r is parsed by split(",") + strip (inverse of ", ".join)' % label, ok and okinv, n, 'list parser for %r changed' % label)
             else:
                 rep.check('triangle', '%r is parsed by json.loads (inverse of json.dumps)' % label, unparse(n.value) == 'json.loads(val)', n, '%r parsed by %s' % (label, unparse(n.value)))
-        # (c) evaluate compares `field` with `accessor`
-        txt = unparse(ev_)
-        uses_field = 'self.%s' % field in txt
-        acc_ok = accessor in txt or (accessor == 'kex.host_keys()' and 'server_host_keys = kex.host_keys()' in txt)
-        rep.check('triangle', 'evaluate() compares self.%s with %s' % (field, accessor), uses_field and acc_ok, ev_, 'evaluate() does not compare self.%s with %s' % (field, accessor))
+        # (c) that evaluate() compares the field with the accessor is decided by the drift table below (every perturbation of the accessor must fail the policy)
     # commented-out keys (banner, compressions) must also be loadable when un-commented
     for line, ph in lines:
         m = re.match(r'^#\s*([a-z _]+?)\s*=', line.strip())
@@ -232,18 +228,6 @@ def run(repo, rep, tier):
                   % (sep, sep, (with_eq or wild)[0]))
         rep.check('separator', 'split result is unpacked into key and value', two_targets, n, 'split result handling changed')
 
-    # ---- rule 3: exact-mode drift ------------------------------------------------------------------------------------------------
-    sites = {}
-    for n in walk_no_nested(ev_):
-        if isinstance(n, ast.Call) and unparse(n.func) == 'self._append_error' and n.args:
-            a = n.args[0]
-            lab = a.value if isinstance(a, ast.Constant) else (a.left.value if isinstance(a, ast.BinOp) and isinstance(a.left, ast.Constant) else None)
-            sites.setdefault(lab, []).append(n)
-    for lab in EVAL_LABELS:
-        ss = sites.get(lab, [])
-        live = [s for s in ss if not excludes(path_condition(s), 'self._allow_algorithm_subset_and_reordering', False) and not excludes(path_condition(s), 'self._allow_larger_keys', False)]
-        rep.check('exact', 'a failing site for %r is live in exact mode and names the field' % lab, len(live) >= 1, ss[0] if ss else ev_, 'no exact-mode comparison reports %r: drift in that attribute goes unnoticed' % lab)
-
     # ---- rule 3b: drift table by abstract interpretation ------------------------------------------------------------------------
     # Policy.evaluate is interpreted (sa/listinterp.py) on a representative policy state (the fields the loader fills, as
     # established by the triangle rule; both relaxation flags false as the template fixes them) against the peer it was made
@@ -275,7 +259,8 @@ def run(repo, rep, tier):
     def policy_env(peer):
         e = {'self.' + FIELD_OF[k]: _copy.deepcopy(v) for k, v in base_peer.items()}
         e.update({'self._banner': None, 'self._optional_host_keys': None, 'self._allow_algorithm_subset_and_reordering': False, 'self._allow_larger_keys': False,
-                  'banner': 'SSH-2.0-OpenSSH_9.9', 'kex': Opaque(), 'kex.server': Opaque(), 'self': Opaque()})
+                  'banner': 'SSH-2.0-OpenSSH_9.9', 'kex': Opaque(), 'kex.server': Opaque(), 'self': Opaque(), 'self._errors': []})
+        e.update(pconsts)
         e.update(_copy.deepcopy(peer))
         return e
     scenarios = [('the peer the policy was made from', dict(base_peer), None)]
@@ -309,14 +294,30 @@ def run(repo, rep, tier):
     rep.floor('drift', 'drift scenarios', len(scenarios), 40)
 
     def policy_helper(call):
-        # self.<helper>(...) of the Policy class itself (not the error recorder, not the error renderer) is interpreted in place
-        if isinstance(call.func, ast.Attribute) and isinstance(call.func.value, ast.Name) and call.func.value.id == 'self' and call.func.attr not in ('_append_error', '_get_errors') \
+        # self.<helper>(...) of the Policy class itself (the error recorder included, not the error renderer) is interpreted in place: the errors a path
+        # records are read from self._errors afterwards, so `ret = False` flags and `len(self._errors) == before` verdicts are treated alike
+        if isinstance(call.func, ast.Attribute) and isinstance(call.func.value, ast.Name) and call.func.value.id in ('self', 'Policy', 'cls') and call.func.attr not in ('_get_errors',) \
                 and repo.has_func('policy', 'Policy.' + call.func.attr):
             return repo.func('policy', 'Policy.' + call.func.attr)
         return None
+
+    def hook_pol(call, e, interp):
+        if unparse(call.func) == 'self._get_errors':
+            return (True, (Opaque(), Opaque()))
+        return None
+    pconsts = {}
+    for st_ in repo.cls('policy', 'Policy').body:
+        tv = (st_.targets[0], st_.value) if isinstance(st_, ast.Assign) and len(st_.targets) == 1 else ((st_.target, st_.value) if isinstance(st_, ast.AnnAssign) and st_.value is not None else None)
+        if tv and isinstance(tv[0], ast.Name):
+            try:
+                v_ = ce.eval_in(tv[1], 'policy', 'Policy')
+            except Exception:
+                continue
+            for pre in ('Policy.', 'self.', 'cls.'):
+                pconsts[pre + tv[0].id] = v_
     npaths = 0
     for desc, peer, want_label in scenarios:
-        it = Interp(effect_names=('_append_error',), resolver=policy_helper)
+        it = Interp(call_hook=hook_pol, resolver=policy_helper)
         try:
             finals = it.run(ev_.body, policy_env(peer))
         except Unknown as ex:
@@ -332,9 +333,12 @@ def run(repo, rep, tier):
             r = fe.get('<return>')
             if fe.get('<outcome>') != 'return' or not isinstance(r, tuple) or not isinstance(r[0], bool):
                 raise AnalysisError('Policy.evaluate: verdict not computable for scenario %r (forks: %s)' % (desc, fe.get('<forks>')))
-            labels = [str(a[0]) for nm, a, k in fe['<effects>'] if a and not isinstance(a[0], Opaque)]
+            errs = fe.get('self._errors')
+            if not isinstance(errs, list):
+                raise AnalysisError('Policy.evaluate: the recorded errors are not computable for scenario %r' % desc)
+            labels = [str(d.get('mismatched_field')) if isinstance(d, dict) else str(d) for d in errs]
             if want_label is None:
-                if r[0] is not True or fe['<effects>']:
+                if r[0] is not True or errs:
                     problem = 'the policy made from a target FAILS on that very target (verdict %s, errors %s)' % (r[0], labels)
             else:
                 if r[0] is not False:
